@@ -368,7 +368,7 @@ def _on_cache_get(token, keyptr, keylen):
         except Exception:   # noqa: B902
             return 0
         if not isinstance(out, L.Content):
-            raise TypeError("content argument must be a Content subtype")
+            raise TypeError("incompatible function arguments: content argument must be a Content subtype")
         return _hand_over(out)
     except BaseException as e:   # noqa: B902
         _PENDING.append(e)
